@@ -237,7 +237,7 @@ def wasm_hook(ctx):
 
 
 PROP = dict(
-    lean=["Tcell.Props.C19", "Tcell.AuditLib"], namespaces=["Tcell.Props.C19"], engines=[], extra=[wasm_hook],
+    lean=["Tcell.Props.C19", "Tcell.Props.C19Page", "Tcell.AuditLib"], namespaces=["Tcell.Props.C19"], engines=[], extra=[wasm_hook],
     trusted_base=[LEAN_TB, CORR_TB, TRANS_TB,
                   "Go js/wasm toolchain, Node and syscall/js as the execution platform; harness/wasm/run.js (recording stand-in for webfiles/tcell.js: logs the arguments of every call, fires the registered callbacks)",
                   "translator's go/ast walk of wscreen.go: WebKeyNames/palette tables with constants evaluated by go/types; lock skeleton (Lock/Unlock/defer/return/if/loop) of every *wScreen method, loops abstracted to 0-or-1 iterations, callee locking classified transitively",
